@@ -88,6 +88,10 @@ func checkC14(ctx *Ctx) {
 	ids = append(ids, ident{Name: "j", Ins: map[string]string{"in": "carrier"}, Subs: map[string][]string{"in": {"a", "b"}}})
 	ids = append(ids, ident{Name: "j", Ins: map[string]string{"in": "carrier"}, Subs: map[string][]string{"in": {"b", "a"}}})
 	ids = append(ids, ident{Name: "j", Ins: map[string]string{"in": "carrier"}, Subs: map[string][]string{"in": {}}})
+	// a process name beyond the 214-byte fold: the identity must still enter the hash
+	longName := strings.Repeat("longprocessname", 15) // 225 bytes
+	ids = append(ids, ident{Name: longName, Ins: map[string]string{"in": "a"}}, ident{Name: longName, Ins: map[string]string{"in": "b"}},
+		ident{Name: longName, Ins: map[string]string{"in": "a"}, Params: map[string]string{"k": "1"}}, ident{Name: longName, Ins: map[string]string{"in": "a"}, Params: map[string]string{"k": "2"}})
 	// two and three joined ports (the order in which they enter the hash must be fixed)
 	ids = append(ids, ident{Name: "jj", Ins: map[string]string{"in1": "c1", "in2": "c2"}, Subs: map[string][]string{"in1": {"a", "b"}, "in2": {"c", "d"}}})
 	ids = append(ids, ident{Name: "jj", Ins: map[string]string{"in1": "c1", "in2": "c2", "in3": "c3"}, Subs: map[string][]string{"in1": {"a"}, "in2": {"b"}, "in3": {"c"}}})
@@ -171,6 +175,7 @@ func checkC14(ctx *Ctx) {
 	}
 	// pairwise distinctness
 	pairs, collisions := 0, 0
+	perClass := map[string]int{}
 	for _, idx := range byDir {
 		pairs += len(idx) * (len(idx) - 1) / 2
 		seen := map[string]int{}
@@ -194,7 +199,8 @@ func checkC14(ctx *Ctx) {
 			if results[idx[0]].preimage == results[idx[len(idx)-1]].preimage {
 				class = "c14.concat-ambiguous" // F3: pieces are joined with "" so different identities flatten to the same string
 			}
-			if collisions <= 3 {
+			perClass[class]++
+			if perClass[class] <= 3 { // at most three witnesses per class (the known concatenation ambiguity has many)
 				ctx.Res.Violate(Violation{What: fmt.Sprintf("two different tasks share the temp dir %s (hashed string %q)", results[idx[0]].real, results[idx[0]].preimage), Class: class, Witness: ws})
 			}
 		}
